@@ -360,6 +360,7 @@ def history_cases(jobs):
         live = []
         # priority each live method is expected to have (X5: a hot-reloaded method keeps the priority of the version it replaces)
         prio = {mid: m["prio"] for mid, m in byid.items()}
+        prio_code = dict(prio)     # (what the code does today: the new version is registered with priority 0)
         if job.get("x5"):
             _install_codefind_stub()
         counters = {"tm": 0, "mtm": 0, "plain": 0}
@@ -385,6 +386,7 @@ def history_cases(jobs):
                     try:
                         ov.register(ns[st["m"]], priority=byid[st["m"]]["prio"])
                         live.append(st["m"])
+                        prio[st["m"]] = prio_code[st["m"]] = byid[st["m"]]["prio"]    # (a plain registration: the method's own priority)
                         rec["out"] = "ok"
                     except TypeError as e:
                         if not (job.get("noreplace") and str(e).startswith("There is already a method")):
@@ -411,7 +413,8 @@ def history_cases(jobs):
                     if st["to"]:
                         live.append(st["to"])
                         prio[st["to"]] = prio[st["m"]]
-                    prio[st["m"]] = byid[st["m"]]["prio"]
+                        prio_code[st["to"]] = 0
+                    prio[st["m"]] = prio_code[st["m"]] = byid[st["m"]]["prio"]
                 else:
                     ns["BUDGET"][0] = st.get("budget", job.get("budget", 3))
                     u0 = user_count()
@@ -431,6 +434,13 @@ def history_cases(jobs):
                         # a function without methods cannot be built; skip the step
                         continue
                     rec["fresh_methods"] = list(live)
+                    if job.get("x5") and any(prio[mid] != prio_code[mid] for mid in live):
+                        # second oracle, only to name the disagreement: the brand-new function with the priorities the code registered
+                        fresh0 = Ovld()
+                        for mid in live:
+                            fresh0.register(ns[mid], priority=prio_code[mid])
+                        ns["BUDGET"][0] = st.get("budget", job.get("budget", 3))
+                        rec["fresh0"] = ob.call(fresh0.dispatch, st["call"], resolve=False)
                 steps.append(rec)
         except Exception:
             err = traceback.format_exc()[-500:]
@@ -928,7 +938,7 @@ def fault_cases(jobs):
             inj = job.get("inject")
             if inj and inj.get("n") == "sweep":
                 dry = dict(job)
-                dry["inject"] = {"kind": inj["kind"], "n": 0}
+                dry["inject"] = {"kind": inj["kind"], "n": 0, **({"only": inj["only"]} if inj.get("only") else {})}
                 d = buildrt.run_fault_job(dry)
                 total = d["steps"][0]["count"]
                 limit = inj.get("limit")
@@ -940,7 +950,7 @@ def fault_cases(jobs):
                 for n in pts:
                     j2 = dict(job)
                     j2["id"] = f"{job['id']}@{n}"
-                    j2["inject"] = {"kind": inj["kind"], "n": n}
+                    j2["inject"] = {"kind": inj["kind"], "n": n, **({"only": inj["only"]} if inj.get("only") else {})}
                     r = buildrt.run_fault_job(j2)
                     r["points_total"] = total
                     out.append(r)
